@@ -264,6 +264,13 @@ func init() {
 	}
 }
 
+// pnormOf parses the exponent out of a boundary name such as "PNorm1.5".
+func pnormOf(name string) float64 {
+	var p float64
+	fmt.Sscanf(name, "PNorm%g", &p)
+	return p
+}
+
 func uvArea(a, b, c model2d.Coord) float64 {
 	return ((b.X-a.X)*(c.Y-a.Y) - (b.Y-a.Y)*(c.X-a.X)) / 2
 }
@@ -346,7 +353,7 @@ func init() {
 				}
 				return "ok"
 			}})
-		for bi, bname := range []string{"Circle", "Square", "PNorm4"} {
+		for bi, bname := range []string{"Circle", "Square", "PNorm4", "PNorm1", "PNorm1.5", "PNorm3", "PNorm5", "PNorm8"} {
 			bi, bname := bi, bname
 			for wi, wname := range []string{"uniform", "inverse-chord", "shape-preserving"} {
 				wi, wname := wi, wname
@@ -361,7 +368,7 @@ func init() {
 						case 1:
 							boundary = model3d.SquareBoundary(m)
 						default:
-							boundary = model3d.PNormBoundary(m, 4)
+							boundary = model3d.PNormBoundary(m, pnormOf(bname))
 						}
 						var w *model3d.EdgeMap[float64]
 						switch wi {
@@ -382,7 +389,8 @@ func init() {
 							case 1:
 								r = math.Max(math.Abs(v.X), math.Abs(v.Y))
 							default:
-								r = math.Pow(math.Pow(math.Abs(v.X), 4)+math.Pow(math.Abs(v.Y), 4), 0.25)
+								pe := pnormOf(bname)
+								r = math.Pow(math.Pow(math.Abs(v.X), pe)+math.Pow(math.Abs(v.Y), pe), 1/pe)
 							}
 							if !(math.Abs(r-1) <= 1e-9) {
 								bad = fmt.Sprintf("boundary vertex %v is mapped to %v, which is not on the unit %s", k, v, bname)
@@ -445,7 +453,7 @@ func init() {
 							c, _ := uv.Load(t[2])
 							ar := uvArea(a, b, c)
 							if math.Abs(ar) < 1e-12 {
-								if bi == 1 {
+								if bi == 1 || bname == "PNorm1" { // straight sides: three boundary vertices on one side are collinear
 									return
 								}
 								res = fmt.Sprintf("VIOLATION flip: triangle %v is mapped to a degenerate UV triangle", *t)
